@@ -94,6 +94,7 @@ class Engine:
             self.alts = []
             self.pc = []
             self.ghost = {}          # ghost state (cost counters): name -> z3 Int term, per path
+            self.boxed_objs = {}     # reference term id -> the mutable wrapper it stands for (to get it back out of a container)
             self.counter = itertools.count()
             self.paths += 1
             if self.paths > self.max_paths:
@@ -288,10 +289,14 @@ class Engine:
                 pc = v.pyclass()
                 if pc is not None:
                     self.assume(sym.ty(v.ref) == self.world.classes.of_py(pc).t)
+            if hasattr(self, "boxed_objs"):
+                self.boxed_objs[v.ref.get_id()] = v
             return v.ref
         if isinstance(v, VRec):
             if v.ref is None:
                 v.ref = self.fresh("ref", V)
+            if hasattr(self, "boxed_objs"):
+                self.boxed_objs[v.ref.get_id()] = v
             return v.ref
         if isinstance(v, VExc):
             if "ref" not in v.fields:
@@ -909,7 +914,15 @@ class Engine:
             if ck is None:
                 if not node.keys[1:]:
                     return self.world.ext.map_from_items(self, [(kv, self.eval(v, frame))])
-                raise Unsupported("dict literal with symbolic key")
+                if isinstance(kv, VCls) or (isinstance(kv, VTup) and all(isinstance(x, VCls) for x in kv.items)):
+                    # a table keyed by classes / tuples of classes (constant.PRIMITIVE_MAP, FORMAT_MAP): only ever iterated
+                    # with .items(); kept as an association list under synthetic internal keys
+                    ck = "key!%d" % len(d.items)
+                    if not hasattr(d, "keyvals"):
+                        d.keyvals = {}
+                    d.keyvals[ck] = kv
+                else:
+                    raise Unsupported("dict literal with symbolic key")
             d.items[ck] = (z3.BoolVal(True), self.eval(v, frame))
         if not d.items:
             if getattr(frame.contract, "concrete_dicts", False):
